@@ -13,89 +13,76 @@ stored at that moment (an aborted call changes nothing).  The only assumption on
 clock itself never goes back (`tick d`, `d : Nat`): the timestamps of the *committed* operations need
 NOT be monotone (a `Reset` that read the clock early can commit after a later `RecordReading`), so
 the sequential theorem `C20_meter_start_le_end` (hypothesis `Mono`) does not give this.
+The proofs instantiate the generic interleaving theorem (`GauLemmas.run_inv`).
 -/
 namespace ScVerif.C20.Meter
+open Gau
 
-/-- a program of the real model's calls: `some v` = `RecordReading(v)`, `none` = `Reset()` -/
-def codeCalls (prog : List (Option String)) : List Call :=
-  prog.map (fun o => match o with | some v => Call.recordReading v | none => Call.resetCall)
-
-/-- **start ≤ end ≤ now after every interleaving**, for every program whose calls read the clock inside
-the transaction unless they overwrite both times (`Call.Shaped`). -/
-theorem C20_meter_conc_start_le_end (store : Reading) (now : Int) (progs : List (List Call))
-    (h0 : Inv store now) (hshape : ∀ cs ∈ progs, ∀ c ∈ cs, c.Shaped) (sched : List Ev) :
+/-- **start ≤ end ≤ now after every interleaving**, for every program whose calls satisfy the generic
+condition (`Call.OK`): a call that keeps part of the stored period reads the clock inside the
+transaction; only a call that overwrites both times may read it before. -/
+theorem C20_meter_conc_start_le_end (store : Reading) (now : Int) (progs : List (List MCall))
+    (h0 : Inv store now) (hshape : ∀ cs ∈ progs, ∀ c ∈ cs, c.OK Ordered) (sched : List Ev) :
     Inv (Cfg.run ⟨store, now, progs.map Thread.ofCalls⟩ sched).store
-        (Cfg.run ⟨store, now, progs.map Thread.ofCalls⟩ sched).now := by
-  have hg : GInv ⟨store, now, progs.map Thread.ofCalls⟩ :=
-    ⟨h0, fun th hth => by
-      obtain ⟨cs, hcs, rfl⟩ := List.mem_map.mp hth
-      exact ofCalls_inv now cs (hshape cs hcs)⟩
-  exact (run_inv sched _ hg).store
+        (Cfg.run ⟨store, now, progs.map Thread.ofCalls⟩ sched).now :=
+  (run_inv Ordered.mono sched _ (init_inv Ordered store now progs h0 hshape)).store
 
 /-- **the code as written**: any threads × any programs of `RecordReading` / `Reset` × any schedule. -/
 theorem C20_meter_conc_code (store : Reading) (now : Int) (progs : List (List (Option String)))
     (h0 : Inv store now) (sched : List Ev) :
-    Inv (Cfg.run ⟨store, now, progs.map (fun p => Thread.ofCalls (codeCalls p))⟩ sched).store
-        (Cfg.run ⟨store, now, progs.map (fun p => Thread.ofCalls (codeCalls p))⟩ sched).now := by
-  have := C20_meter_conc_start_le_end store now (progs.map codeCalls) h0 (fun cs hcs c hc => by
+    Inv (Cfg.run ⟨store, now, (progs.map codeCalls).map Thread.ofCalls⟩ sched).store
+        (Cfg.run ⟨store, now, (progs.map codeCalls).map Thread.ofCalls⟩ sched).now :=
+  C20_meter_conc_start_le_end store now (progs.map codeCalls) h0 (fun cs hcs c hc => by
     obtain ⟨p, _, rfl⟩ := List.mem_map.mp hcs
-    obtain ⟨o, _, rfl⟩ := List.mem_map.mp hc
-    cases o <;> intro v hv <;> simp_all [Call.recordReading, Call.resetCall]) sched
-  simpa [List.map_map, Function.comp_def] using this
+    exact codeCalls_ok p c hc) sched
 
 /-- **every reading a call returns is ordered** (both times, start ≤ end), under every interleaving. -/
 theorem C20_meter_conc_results (store : Reading) (now : Int) (progs : List (List (Option String)))
     (h0 : Inv store now) (sched : List Ev) :
-    ∀ th ∈ (Cfg.run ⟨store, now, progs.map (fun p => Thread.ofCalls (codeCalls p))⟩ sched).threads,
+    ∀ th ∈ (Cfg.run ⟨store, now, (progs.map codeCalls).map Thread.ofCalls⟩ sched).threads,
       ∀ r, Res.ok r ∈ th.results → ∃ s e, r.start = some s ∧ r.stop = some e ∧ s ≤ e := by
-  have hg : GInv ⟨store, now, progs.map (fun p => Thread.ofCalls (codeCalls p))⟩ :=
-    ⟨h0, fun th hth => by
-      obtain ⟨p, _, rfl⟩ := List.mem_map.mp hth
-      refine ofCalls_inv now _ (fun c hc => ?_)
-      obtain ⟨o, _, rfl⟩ := List.mem_map.mp hc
-      cases o <;> intro v hv <;> simp_all [Call.recordReading, Call.resetCall]⟩
+  have hg := run_inv Ordered.mono sched _ (init_inv Ordered store now (progs.map codeCalls) h0
+    (fun cs hcs c hc => by
+      obtain ⟨p, _, rfl⟩ := List.mem_map.mp hcs
+      exact codeCalls_ok p c hc))
   intro th hth r hr
-  exact ((run_inv sched _ hg).threads th hth).results _ hr
+  obtain ⟨t, s, e, h1, h2, h3, _⟩ := (hg.threads th hth).results _ hr
+  exact ⟨s, e, h1, h2, h3⟩
 
 /-- **every commit is the sequential operation on the value stored at that moment; anything else
-(including an `Aborted` call) leaves the store alone.**  So `C20_meter_record` / `C20_meter_reset`
-(keeps start, sets usage and end; sets all three) describe each committed concurrent call. -/
-theorem C20_meter_conc_commit_is_sequential (c : Cfg) (ev : Ev) :
-    (c.step ev).store = c.store ∨ ∃ op : Op, (c.step ev).store = Meter.step c.store op := by
-  cases ev with
-  | tick d => left; rfl
-  | step i =>
-    simp only [Cfg.step]
-    cases hth : c.threads[i]? with
-    | none => left; rfl
-    | some th =>
-      rcases threadStep_seq c.store c.now th with h | ⟨cl, o, t, _, _, h, _⟩
-      · left; exact h.1
-      · right; exact ⟨cl.eff.op t, h⟩
-
-/-- **a call that returns a reading has committed exactly that reading**, and it is the sequential
-operation applied to the store; a thread step that returns nothing new, or `Aborted`, does not write. -/
-theorem C20_meter_conc_result_is_commit (store : Reading) (now : Int) (th : Thread) :
+(including an `Aborted` call) leaves the store alone and returns no reading.**  A thread step either
+changes nothing, or its current call was at the lock having read exactly the stored value, and the
+store becomes — and the call returns — that call's effect on the current store at the instant the call
+read from the clock. -/
+theorem C20_meter_conc_commit_is_sequential (store : Reading) (now : Int) (th : MThread) :
     ((threadStep store now th).1 = store ∧
       ∀ r, (threadStep store now th).2.results ≠ .ok r :: th.results) ∨
-    ∃ op : Op, (threadStep store now th).1 = Meter.step store op ∧
-      (threadStep store now th).2.results = .ok (Meter.step store op) :: th.results := by
-  rcases threadStep_seq store now th with h | ⟨cl, o, t, _, _, h1, h2⟩
+    ∃ cl t, th.cur = some (cl, .ready store t) ∧
+      (threadStep store now th).1 = cl.apply store t ∧
+      (threadStep store now th).2.results = .ok (cl.apply store t) :: th.results := by
+  rcases threadStep_seq store now th with h | h
   · left; exact ⟨h.1, fun r hr => h.2 r hr⟩
-  · right; exact ⟨cl.eff.op t, h1, h2⟩
+  · right; exact h
+
+/-- … and the effect of the code's two calls is the sequential model's `step`: so `C20_meter_record`
+(keeps start, sets usage and end) and `C20_meter_reset` describe every committed concurrent call. -/
+theorem C20_meter_conc_calls_are_ops (o : Reading) (v : String) (t : Int) :
+    (recordCall v).apply o t = Meter.step o (.record v t) ∧ resetCall.apply o t = Meter.step o (.reset t) ∧
+    (recordCall v).early = false ∧ resetCall.early = true :=
+  ⟨rfl, rfl, rfl, rfl⟩
 
 /-- **why the clock must be read inside the transaction**: a `RecordReading` that takes its timestamp
-before `Set` (shape `early = true`) admits a schedule that commits `end < start` — thread 0 reads the
-clock (100) and is delayed, a complete `Reset` runs at 105, thread 0 carries on. -/
+before `Set` admits a schedule that commits `end < start` — thread 0 reads the clock (100) and is
+delayed, a complete `Reset` runs at 105, thread 0 carries on. -/
 theorem C20_meter_conc_clock_outside_fails :
-    ∃ (progs : List (List Call)) (sched : List Ev),
+    ∃ (progs : List (List MCall)) (sched : List Ev),
       Inv ⟨"0", some 100, some 100⟩ 100 ∧
       ¬ ∃ t', Inv (Cfg.run ⟨⟨"0", some 100, some 100⟩, 100, progs.map Thread.ofCalls⟩ sched).store t' := by
-  refine ⟨[[⟨.record "5", true⟩], [Call.resetCall]],
+  refine ⟨[[earlyRecordCall "5"], [resetCall]],
     [.step 0, .tick 5, .step 1, .step 1, .step 1, .step 1, .step 0, .step 0, .step 0],
     ⟨100, 100, rfl, rfl, Int.le_refl _, Int.le_refl _⟩, ?_⟩
   have h : (Cfg.run ⟨⟨"0", some 100, some 100⟩, 100,
-      [[(⟨.record "5", true⟩ : Call)], [Call.resetCall]].map Thread.ofCalls⟩
+      [[earlyRecordCall "5"], [resetCall]].map Thread.ofCalls⟩
       [.step 0, .tick 5, .step 1, .step 1, .step 1, .step 1, .step 0, .step 0, .step 0]).store
       = ⟨"5", some 105, some 100⟩ := by decide
   rw [h]
@@ -103,20 +90,20 @@ theorem C20_meter_conc_clock_outside_fails :
   simp only [Option.some.injEq] at hs he
   omega
 
-/-- the same schedule on the code as written: the overlapping `RecordReading` is `Aborted`, the store
+/-- the same overlap on the code as written: the overlapping `RecordReading` is `Aborted`, the store
 keeps the `Reset`'s reading -/
 example : (Cfg.run ⟨⟨"0", some 100, some 100⟩, 100,
-      [[Call.recordReading "5"], [Call.resetCall]].map Thread.ofCalls⟩
+      [[recordCall "5"], [resetCall]].map Thread.ofCalls⟩
       [.step 0, .step 0, .tick 5, .step 1, .step 1, .step 1, .step 1, .step 0, .step 0]).store
       = ⟨"0", some 105, some 105⟩ := by decide
 example : ((Cfg.run ⟨⟨"0", some 100, some 100⟩, 100,
-      [[Call.recordReading "5"], [Call.resetCall]].map Thread.ofCalls⟩
+      [[recordCall "5"], [resetCall]].map Thread.ofCalls⟩
       [.step 0, .step 0, .tick 5, .step 1, .step 1, .step 1, .step 1, .step 0, .step 0]).threads.map (·.results))
       = [[.aborted], [.ok ⟨"0", some 105, some 105⟩]] := by decide
 /-- committed timestamps need not be monotone: a `Reset` that read the clock at 100 commits after a
 `RecordReading` stamped 107 — the sequential hypothesis `Mono` fails, the invariant holds -/
 example : (Cfg.run ⟨⟨"0", some 100, some 100⟩, 100,
-      [[Call.resetCall], [Call.recordReading "5"]].map Thread.ofCalls⟩
+      [[resetCall], [recordCall "5"]].map Thread.ofCalls⟩
       [.step 0, .tick 7, .step 1, .step 1, .step 1, .step 1, .step 0, .step 0, .step 0]).store
       = ⟨"0", some 100, some 100⟩ := by decide
 
